@@ -203,6 +203,12 @@ func (h *harness) judge(c caseT, v verdictT) {
 			d.Finding = "text/" + opclass // outside the modelled fragment: labelled by the mutation operator
 		case v.lax != "" && v.lax != "none":
 			d.Finding = v.lax
+		case v.y == "abstain" || v.g == "abstain":
+			// the fragment's model does not describe this construct (constant arithmetic, multi-value calls): labelled by the mutation operator
+			d.Finding = "abstain/" + opclass
+		}
+		if d.Finding != "" {
+			run.Hit("finding:" + d.Finding + ":" + opclass)
 		}
 		// a rejected program that nevertheless ran or printed is never a listed class
 		if v.impl.Compile == "err" && (v.impl.Stdout != "" || v.impl.CompOut != "" || v.impl.Eval == "ok") {
